@@ -53,8 +53,14 @@ constructors), `erase(first, last)`, `swap`, `insert(hint, value)`, `extract(key
 `insert(hint, node_type&&)` (node handle = `Option α`; `_set.extract(…)` / hinted `_set.insert(hint, v)` of the backing set =
 its hand-written list model), and the comparison operators: `_set == / < o._set` = `vecEq eqT` / `vecLess ltT`,
 `std::is_permutation` = `isPermutation eqT`, `ComputeSortedPtrVec` (inlined: `std::transform` taking addresses into a pointer
-vector = the list of the pointees, `std::sort` with a lambda = `sortedBy <member>_pred`, the lambda being executed symbolically:
-it calls a DEFAULT-CONSTRUCTED comparator, the extra parameter `lt_default`), `std::lexicographical_compare` with the local
+vector = the list of the pointees, `std::sort` with a lambda = `sortedBy (<member>_pred <comparator>)`, the lambda being executed
+symbolically.  Two shapes of `ComputeSortedPtrVec` are known: `(c, comp)` where the lambda captures the comparator object `comp`
+handed over by the caller -- `key_comp()` = `_set.key_comp()` = the stored comparator `lt`; `o.key_comp()` = the comparator
+stored in the other set, which in this model is the same `lt` (the generated `swap` / `merge` already treat the two sets as
+sharing `lt`: the state `Sets.SSet` has no comparator component), its owner being remembered: sorting the inline elements of
+one set with the comparator object of the OTHER set is refused -- and the historical `(c)` where the lambda calls a
+DEFAULT-CONSTRUCTED comparator `Compare()`, which becomes the extra parameter `lt_default` of the relational operators),
+`std::lexicographical_compare` with the local
 functor `Comp` (each of its overloads is checked to be `<` of the element type) = `vecLess ltT`.  A member that exists with a
 different body in the two instantiations (it calls `ToVecIt` / `ToSetIt`, which have one overload per iterator kind) is generated
 once per instantiation (`…_ptr`, `…_var`).
@@ -234,6 +240,7 @@ class Translator(F.Translator):
         self.param_names = set()
         self.mode = 'member'      # 'member' | 'functor' | 'step' | 'range_step'
         self.aux_defs, self.aux_names, self.extras = [], [], []
+        self.aux_text = {}
         self.other_ids = {}
         self.irt_fields = None
         self.local_structs = {}
@@ -454,6 +461,11 @@ class Translator(F.Translator):
                              lambda p: k(p, ('sit', v[2])),
                              note=f'{what}: needs an iterator of the backing set')
         raise Unsupported(f'{where(n)}: {what}: an iterator of the backing set was expected, found {v[0]}')
+
+    @staticmethod
+    def is_comp_type(t):
+        """the comparator type of the set, desugared or spelled through the member typedef"""
+        return t == 'std::less<int>' or re.fullmatch(r'amc::SmallSet<int, .*>::key_compare', t, re.S) is not None
 
     @staticmethod
     def sub_list(lst, first, last):
@@ -778,22 +790,39 @@ class Translator(F.Translator):
                 return self.exec_block([body_of(decl)], p, lambda q: self.fall_off(decl, q, kret), kret)
             return self.eval(c[1], path, cont)
         if callee.get('kind') == 'DeclRefExpr' and rd.get('kind') == 'CXXMethodDecl' and rd.get('name') == 'ComputeSortedPtrVec':
-            # a static member with a visible body: inlined
+            # a static member with a visible body: inlined.  Two shapes are known: `(const VecType &c)` (the lambda of the sort
+            # then has to find a comparator by itself) and `(const VecType &c, const key_compare &comp)` (the comparator object
+            # is handed over by the caller)
             decl = self.by_id.get(rd.get('id'))
-            if decl is None or not has_body(decl) or len(c) != 2 or len(params_of(decl)) != 1 or not str(decl.get('_file')).endswith(HEADER):
+            ps = params_of(decl) if decl is not None else []
+            if decl is None or not has_body(decl) or len(ps) not in (1, 2) or len(c) != 1 + len(ps) \
+                    or not str(decl.get('_file')).endswith(HEADER) \
+                    or not re.fullmatch(r'const (amc::SmallSet<int, .*>::)?VecType &', qual(ps[0])) \
+                    or (len(ps) == 2 and not self.is_comp_type(strip_cvref(dq(ps[1])))):
                 raise Unsupported(f'{where(n)}: call of `{rd.get("name")}` of an unknown shape')
-            ps = params_of(decl)
-            def cont(p, v):
+            def cont(p, vs):
+                v = vs[0]
                 if v[0] not in ('vec', 'ovec'):
                     raise Unsupported(f'{where(n)}: `{rd.get("name")}` applied to a {v[0]}')
+                if len(vs) == 2:
+                    cv = vs[1]
+                    if cv[0] != 'comp':
+                        raise Unsupported(f'{where(n)}: `{rd.get("name")}` given a {cv[0]} as comparator')
+                    if self.comp_term(cv) == 'lt':
+                        # a STORED comparator object: the model has one comparator `lt` for both sets (as `swap` / `merge`),
+                        # so what has to hold is that each inline vector is sorted with the comparator object of ITS OWN set
+                        owner = cv[2] if len(cv) > 2 and cv[2] else 's'
+                        if owner != ('s' if v[0] == 'vec' else 'o'):
+                            raise Unsupported(f'{where(n)}: `{rd.get("name")}` sorts the inline elements of one set with the comparator '
+                                              f'object of the other set (the model has no such thing)')
                 p = p.copy()
-                p.frames.append({ps[0]['name']: v})
+                p.frames.append({q['name']: w for q, w in zip(ps, vs)})
                 def kret(q, w):
                     q = q.copy()
                     q.frames.pop()
                     return k(q, w)
                 return self.exec_block([body_of(decl)], p, lambda q: self.fall_off(decl, q, kret), kret)
-            return self.eval(c[1], path, cont)
+            return self.eval_list(c[1:], path, cont)
         if callee.get('kind') != 'DeclRefExpr' or rd.get('kind') != 'FunctionDecl':
             raise Unsupported(f'{where(n)}: call through something else than a named function')
         name = rd.get('name')
@@ -953,14 +982,15 @@ class Translator(F.Translator):
                                   f'(found `{getattr(tree, "ret", "a branching body")}`)')
 
     def e_LambdaExpr(self, n, path, k):
-        """a lambda `[](const_pointer p1, const_pointer p2) { return …; }` given to a library algorithm: executed
-        symbolically on its own, emitted as an auxiliary Bool-valued definition on the pointees"""
+        """a lambda `[](const_pointer p1, const_pointer p2) { return …; }` or `[&comp](const_pointer p1, const_pointer p2)
+        { return …; }` (one capture, of a comparator object) given to a library algorithm: executed symbolically on its own,
+        emitted as an auxiliary Bool-valued definition on the pointees"""
         c = kids(n)
         rec = [x for x in c if x.get('kind') == 'CXXRecordDecl']
         body = [x for x in c if x.get('kind') == 'CompoundStmt']
         caps = [x for x in c if x.get('kind') == 'DeclRefExpr']
-        if len(rec) != 1 or len(body) != 1 or caps:
-            raise Unsupported(f'{where(n)}: lambda expression of an unknown shape (captures are not known here)')
+        if len(rec) != 1 or len(body) != 1 or len(caps) > 1 or len(rec) + len(body) + len(caps) != len(c):
+            raise Unsupported(f'{where(n)}: lambda expression of an unknown shape (at most one capture, by name, is known here)')
         ops = [m for m in kids(rec[0]) if m.get('kind') == 'CXXMethodDecl' and m.get('name') == 'operator()']
         if len(ops) != 1:
             raise Unsupported(f'{where(n)}: lambda without a single operator()')
@@ -968,8 +998,26 @@ class Translator(F.Translator):
         if len(ps) != 2 or any(self.type_kind(qual(q), q) != 'ptr' for q in ps) or self.ret_text(ops[0]) != 'bool':
             raise Unsupported(f'{where(n)}: only a binary predicate on pointers to elements is known as a lambda')
         names = [q['name'] + '_' if q['name'] in RESERVED else q['name'] for q in ps]
+        frame = {}
+        outer, how = None, None
+        fields = [m for m in kids(rec[0]) if m.get('kind') == 'FieldDecl']
+        if len(fields) != len(caps):
+            raise Unsupported(f'{where(n)}: lambda with {len(fields)} captured object(s) for {len(caps)} named capture(s)')
+        for cp, fd in zip(caps, fields):
+            nm = cp.get('referencedDecl', {}).get('name')
+            if cp.get('referencedDecl', {}).get('kind') not in ('ParmVarDecl', 'VarDecl') or nm in [q['name'] for q in ps]:
+                raise Unsupported(f'{where(cp)}: lambda capture of an unknown shape')
+            v = self.lookup(path, nm, cp)
+            if v[0] != 'comp' or not self.is_comp_type(strip_cvref(dq(fd))):
+                raise Unsupported(f'{where(cp)}: lambda capture `{nm}` of a {v[0]} (only one capture, of a comparator, is known)')
+            if not dq(fd).rstrip().endswith('&'):
+                raise Unsupported(f'{where(cp)}: lambda capture `{nm}` by copy (only a capture by reference is known here)')
+            outer = self.comp_term(v)
+            how = (nm, 'by reference')
+            frame[nm] = ('comp',)                     # inside the auxiliary definition the captured comparator is called `lt`
+        frame.update({q['name']: ('eptr', nm) for q, nm in zip(ps, names)})
         sub = Path()
-        sub.frames = [{q['name']: ('eptr', nm) for q, nm in zip(ps, names)}]
+        sub.frames = [frame]
         saved = (self.mode, self.param_names)
         self.mode, self.param_names = 'functor', set(names)
         def kret(p, v):
@@ -984,15 +1032,23 @@ class Translator(F.Translator):
         lines = self.emit(tree, 1)
         uses_default = any('lt_default' in ln for ln in lines)
         name = f'{self.cur_lean}_pred'
+        sig = f'def {name} (lt : α → α → Bool)' + (' (lt_default : α → α → Bool)' if uses_default else '') + \
+              ''.join(f' ({nm} : α)' for nm in names) + ' : Bool :='
+        doc = f'/-- smallset.hpp:{line_of(n)} the lambda given to the sort of `ComputeSortedPtrVec`, on the pointees; '
+        if how is not None:
+            doc += (f'it captures {how[1]} the comparator object `{how[0]}` received by `ComputeSortedPtrVec` from its caller, '
+                    f'here `lt`; ')
+        if uses_default or how is None:
+            doc += '`lt_default` is a DEFAULT-CONSTRUCTED comparator (`Compare()`), not the comparator object of the set; '
+        doc += 'comparator calls are not counted -/'
+        text = '\n'.join([doc, sig] + lines) + '\n'
         if name not in self.aux_names:
             self.aux_names.append(name)
-            sig = f'def {name} (lt : α → α → Bool)' + (' (lt_default : α → α → Bool)' if uses_default else '') + \
-                  ''.join(f' ({nm} : α)' for nm in names) + ' : Bool :='
-            doc = (f'/-- smallset.hpp:{line_of(n)} the lambda given to the sort of `ComputeSortedPtrVec`, on the pointees; '
-                   f'`lt_default` is a DEFAULT-CONSTRUCTED comparator (`Compare()`), not the comparator object of the set; '
-                   f'comparator calls are not counted -/')
-            self.aux_defs.append('\n'.join([doc, sig] + lines) + '\n')
-        return k(path, ('pred', f'{name} lt' + (' lt_default' if uses_default else '')))
+            self.aux_defs.append(text)
+            self.aux_text[name] = text
+        elif self.aux_text.get(name) != text:
+            raise Unsupported(f'{where(n)}: two different lambdas in `{self.cur_cpp}` (or one lambda that reads differently at two calls)')
+        return k(path, ('pred', f'{name} {atom(outer) if outer is not None else "lt"}' + (' lt_default' if uses_default else '')))
 
     def e_CXXOperatorCallExpr(self, n, path, k):
         if self.mode in ('functor', 'functor2'):
@@ -1271,6 +1327,10 @@ class Translator(F.Translator):
                 return k(path, ('osit', f'{atom(path.oset)}.length'))
             if name == 'size':
                 return k(path, ('n', f'{atom(path.oset)}.length'))
+            if name == 'key_comp':
+                # the comparator object stored in the other set: in the model both sets share the comparator `lt` (as in
+                # `swap` / `merge`); the owner is remembered so that its use can be checked
+                return k(path, ('comp', 'lt', 'o'))
         raise Unsupported(f'{where(n)}: member `{name}` of the backing set of the other set is outside the translated subset')
 
     def other_member(self, n, me, name, args, path, k):
@@ -1469,6 +1529,7 @@ class Translator(F.Translator):
         self.mode = 'member'
         self.loops = []
         self.aux_defs, self.aux_names, self.extras = [], [], []
+        self.aux_text = {}
         self.cur_lean = lean
         self.memo_const = lean.startswith('op_')
         ctor = decl.get('kind') == 'CXXConstructorDecl'
